@@ -31,7 +31,7 @@ pub fn adv_of(gid: u32) -> i32 {
 }
 
 /// groups: (first char, last char, first glyph), sorted by char.
-fn build_font(groups: &[(u32, u32, u32)], num_glyphs: u16) -> Vec<u8> {
+fn build_font(groups: &[(u32, u32, u32)], num_glyphs: u16, gdef_class: Option<u16>) -> Vec<u8> {
     let mut head = Vec::new();
     be32(&mut head, 0x00010000); // version
     be32(&mut head, 0x00010000); // fontRevision
@@ -87,8 +87,23 @@ fn build_font(groups: &[(u32, u32, u32)], num_glyphs: u16) -> Vec<u8> {
         be32(&mut cmap, *g);
     }
 
-    let tables: Vec<(&[u8; 4], Vec<u8>)> =
+    let mut tables: Vec<(&[u8; 4], Vec<u8>)> =
         vec![(b"cmap", cmap), (b"head", head), (b"hhea", hhea), (b"hmtx", hmtx), (b"maxp", maxp)];
+    if let Some(class) = gdef_class {
+        // GDEF 1.0 whose glyph class definition (format 2, one range) gives every glyph but .notdef `class`
+        let mut gdef = Vec::new();
+        be32(&mut gdef, 0x00010000);
+        be16(&mut gdef, 12); // glyphClassDef
+        be16(&mut gdef, 0); // attachList
+        be16(&mut gdef, 0); // ligCaretList
+        be16(&mut gdef, 0); // markAttachClassDef
+        be16(&mut gdef, 2); // ClassDef format 2
+        be16(&mut gdef, 1); // one range
+        be16(&mut gdef, 1);
+        be16(&mut gdef, num_glyphs - 1);
+        be16(&mut gdef, class);
+        tables.insert(0, (b"GDEF", gdef));
+    }
     let n = tables.len() as u16;
     let mut out = Vec::new();
     be32(&mut out, 0x00010000);
@@ -142,6 +157,13 @@ pub fn letters() -> Vec<u32> {
 /// Code points given own glyphs when `ign_mapped`: every code point of the candidate ranges
 /// (the specification's ranges plus the four fillers).
 fn gen_font(space: bool, ign_mapped: bool, spec: &[(u32, u32)]) -> GenFont {
+    gen_font_gdef(space, ign_mapped, spec, None)
+}
+
+/// `gdef_class`: a GDEF that puts every glyph (the ignorables' own glyphs included) into that glyph class;
+/// classes: 1 base, 2 ligature, 3 mark, 4 component, anything else undefined.  Default ignorables are
+/// decided on the character, never on the glyph class.
+fn gen_font_gdef(space: bool, ign_mapped: bool, spec: &[(u32, u32)], gdef_class: Option<u16>) -> GenFont {
     let mut cps: Vec<u32> = letters();
     if space {
         cps.push(0x20);
@@ -163,8 +185,8 @@ fn gen_font(space: bool, ign_mapped: bool, spec: &[(u32, u32)]) -> GenFont {
         }
         gid += 1;
     }
-    let data = build_font(&groups, gid as u16);
-    let name = format!("{}{}", if space { "S" } else { "N" }, if ign_mapped { "M" } else { "U" });
+    let data = build_font(&groups, gid as u16, gdef_class);
+    let name = format!("{}{}{}", if space { "S" } else { "N" }, if ign_mapped { "M" } else { "U" }, gdef_class.map(|c| format!("g{}", c)).unwrap_or_default());
     let mut f = GenFont { name, data, groups, space: None, num_glyphs: gid };
     if space {
         f.space = Some(f.gid(0x20));
@@ -178,6 +200,11 @@ pub fn gen_fonts(spec: &[(u32, u32)]) -> Vec<GenFont> {
         gen_font(false, true, spec),
         gen_font(true, false, spec),
         gen_font(false, false, spec),
+        gen_font_gdef(true, true, spec, Some(1)),
+        gen_font_gdef(true, true, spec, Some(2)),
+        gen_font_gdef(true, true, spec, Some(4)),
+        gen_font_gdef(false, true, spec, Some(4)),
+        gen_font_gdef(true, true, spec, Some(9)),
     ]
 }
 
